@@ -574,8 +574,12 @@ const _: () = {
             if self.section.is_empty() {
                 return Ok(None)
             }
-            if !self.first && self.section.first() == Some(&b',') {
-                return Err(serde::de::Error::custom("missing ,"))
+            if !self.first {
+                /* consume the `,` between elements */
+                if self.section.first() != Some(&b',') {
+                    return Err(serde::de::Error::custom("missing ,"))
+                }
+                self.section = &self.section[1..];
             }
             self.first = false;
 
@@ -583,7 +587,11 @@ const _: () = {
             let (element, remaining) = self.section.split_at(size);
             self.section = remaining;
 
-            seed.deserialize(element.into_deserializer()).map(Some)
+            /* an element is a value like any other: percent-encoded, and of the element's type */
+            seed.deserialize(&mut URLEncodedDeserializer {
+                input: element,
+                side:  ParsingSide::Value
+            }).map(Some)
         }
     }
 };
